@@ -119,7 +119,7 @@ func run(id, tier string) int {
 			sem <- struct{}{}
 			defer func() { <-sem }()
 			cmd := exec.Command(self, "worker", id, tier, strconv.Itoa(i))
-			cmd.Env = append(os.Environ(), "GOMAXPROCS=2")
+			cmd.Env = append(os.Environ(), "GOMAXPROCS=2", "VERIF_DEADLINE_UNIX="+strconv.FormatInt(t0.Add(budget(p, tier)).Unix(), 10))
 			var out, errb bytes.Buffer
 			cmd.Stdout, cmd.Stderr = &out, &errb
 			err := cmd.Run()
@@ -186,7 +186,19 @@ func worker(id, tier, idx string) {
 	i, _ := strconv.Atoi(idx)
 	units := p.Units(tier)
 	u := units[i]
+	// the budget is the property's, counted from the start of the run; a unit that is started late still
+	// gets a minimal slice of its own (internal deadlines end a unit with exhaustive=false, never with an alarm)
 	dl := time.Now().Add(budget(p, tier))
+	if v, err := strconv.ParseInt(os.Getenv("VERIF_DEADLINE_UNIX"), 10, 64); err == nil && v > 0 {
+		dl = time.Unix(v, 0)
+		slice := 45 * time.Second
+		if tier == "thorough" {
+			slice = 4 * time.Minute
+		}
+		if min := time.Now().Add(slice); dl.Before(min) {
+			dl = min
+		}
+	}
 	r := u.Run(dl)
 	r.Unit = u.Name
 	js, err := json.Marshal(r)
